@@ -279,20 +279,46 @@ Fixpoint assign_ids (es : list enq) (gen : list N) : option (list (N * enq)) :=
       end
   end.
 
-(** memory Enqueue: evict while the depth condition holds (fuel = number of messages + 1);
-    returns whether room was made and the list reached (memory evicts first and may fail afterwards) *)
-Fixpoint mem_make_room' (c : cfg) (fuel : nat) (extra : Z) (s : state) (l : list msg) : bool * list msg :=
-  let full := (c_max_depth c <? active l + extra) ||
-              ((0 <? c_deliv_age c) && (c_max_depth c <? active_deliv l + extra)) in
-  if negb full then (true, l)
-  else if negb (c_drop_oldest c) then (false, l)
+(** memory planDropOldestLocked: the queued ids (in log order, each once) that must go so
+    that [extra] new messages fit; [None] = ErrQueueFull.  Nothing is evicted here. *)
+Definition mem_full (c : cfg) (extra a ad : Z) : bool :=
+  (c_max_depth c <? a + extra) || ((0 <? c_deliv_age c) && (c_max_depth c <? ad + extra)).
+
+(** the queued message with the smallest received_at that is not yet planned; ties go to
+    the first position in the order log *)
+Fixpoint mem_oldest (ord : list N) (l : list msg) (victims : list N) (best : option msg) : option msg :=
+  match ord with
+  | [] => best
+  | i :: tl =>
+      match find_id i l with
+      | Some m =>
+          if queuedb m && negb (memN i victims) then
+            match best with
+            | None => mem_oldest tl l victims (Some m)
+            | Some b => if m_recv m <? m_recv b then mem_oldest tl l victims (Some m)
+                        else mem_oldest tl l victims best
+            end
+          else mem_oldest tl l victims best
+      | None => mem_oldest tl l victims best
+      end
+  end.
+
+Fixpoint mem_plan_loop (c : cfg) (fuel : nat) (extra : Z) (ord : list N) (l : list msg) (a ad : Z) (victims : list N)
+  : option (list N) :=
+  if negb (mem_full c extra a ad) then Some victims
   else match fuel with
-       | O => (false, l)
-       | S f => match mem_victim (order s) l with
-                | None => (false, l)
-                | Some v => mem_make_room' c f extra s (remove_id v l)
+       | O => None
+       | S f => match mem_oldest ord l victims None with
+                | None => None
+                | Some m => mem_plan_loop c f extra ord l (a - 1) (ad - 1) (victims ++ [m_id m])
                 end
        end.
+
+Definition mem_plan (c : cfg) (extra : Z) (s : state) (l : list msg) : option (list N) :=
+  if c_max_depth c <=? 0 then Some []
+  else if negb (mem_full c extra (active l) (active_deliv l)) then Some []
+  else if negb (c_drop_oldest c) then None
+  else mem_plan_loop c (S (length l)) extra (order s) l (active l) (active_deliv l) [].
 
 Fixpoint sql_make_room (c : cfg) (fuel : nat) (need : Z) (hint : list N) (l : list msg) : option (list msg) :=
   if need <=? c_max_depth c then Some l
@@ -344,25 +370,21 @@ Definition step_enqueue (fl : flavour) (c : cfg) (now : Z) (single : bool) (es :
         end
     | Mem =>
         let l1 := msgs s1 in
-        if single then
-          let '(ok, l2) := if 0 <? c_max_depth c then mem_make_room' c (S (length l1)) 1 s1 l1 else (true, l1) in
-          let s2 := set_msgs s1 l2 in
-          if negb ok then (s2, RErr EFull)
-          else if pressure c l2 then (s2, RErr EPressure)
-          else if negb (forallb (fun i => negb (has_id i l2)) ids) then (s2, RErr EExists)
-          else (mkState (l2 ++ news) (order s1 ++ ids) (last_prune s1) (last_sweep s1) (issued s1), ok_res)
-        else
-          (* EnqueueBatch: reject-policy pre-check, duplicate check, then evictions, then pressure *)
-          if (0 <? c_max_depth c) && negb (c_drop_oldest c) &&
-             ((c_max_depth c <? active l1 + k) || ((0 <? c_deliv_age c) && (c_max_depth c <? active_deliv l1 + k)))
-          then (s1, RErr EFull)
-          else if negb (nodupN ids && forallb (fun i => negb (has_id i l1)) ids) then (s1, RErr EExists)
-          else
-            let '(ok, l2) := if 0 <? c_max_depth c then mem_make_room' c (S (length l1)) k s1 l1 else (true, l1) in
-            let s2 := set_msgs s1 l2 in
-            if negb ok then (s2, RErr EFull)
-            else if pressure c l2 then (s2, RErr EPressure)
-            else (mkState (l2 ++ news) (order s1 ++ ids) (last_prune s1) (last_sweep s1) (issued s1), ok_res)
+        match mem_plan c k s1 l1 with
+        | None => (s1, RErr EFull)
+        | Some victims =>
+            let fresh := forallb (fun i => negb (has_id i l1) || memN i victims) ids in
+            let l2 := apply_pm (pm_remove_ids victims) l1 in
+            let done := (mkState (l2 ++ news) (order s1 ++ ids) (last_prune s1) (last_sweep s1) (issued s1), ok_res) in
+            if single then
+              if pressure c l1 then (s1, RErr EPressure)
+              else if negb fresh then (s1, RErr EExists)
+              else done
+            else
+              if negb (nodupN ids && fresh) then (s1, RErr EExists)
+              else if pressure c l1 then (s1, RErr EPressure)
+              else done
+        end
     end
   end
   end.
